@@ -61,7 +61,7 @@ ENCODINGS = [None, 'utf-8', 'utf-16', 'latin-1', 'utf-8-sig', 'ascii',
 def budget(tier):
     if tier == 'quick':
         return {'cases': 30000, 'wall_cap_s': 240}
-    return {'cases': 400000, 'wall_cap_s': 1500}
+    return {'cases': 2000000, 'wall_cap_s': 1500}
 
 
 def _text_table(rng, maxrows, ragged_ok=True):
